@@ -100,6 +100,9 @@ def generate(rng, tier):
             # a user's palette that only re-uses the syntaxes of its parent palettes: no defaults of its own
             c["ids"] = ids = []
             c["no_defaults"] = True
+        if i and rng.random() < 0.12:
+            # two different component classes that print alike (same module, same name: made by a factory)
+            c["cls_name"] = comps[rng.randrange(i)]["name"]
         comps.append(c)
         syn_ids += ids
     real_ids = sorted({sid for name in real_used for sid in REAL[name][1].values()
@@ -316,7 +319,7 @@ class World:
               "PARENT_PALETTES": [self.cls(p) for p in spec["parents"] if p in self.comp_spec] or None}
         for acc, sid in spec["accessors"].items():
             ns[acc] = color.ConfColor(sid)
-        return self.sut(f"class {name}", type, name, (color.Palette,), ns)
+        return self.sut(f"class {name}", type, spec.get("cls_name", name), (color.Palette,), ns)
 
     def accessors(self, name):
         if name in REAL:
